@@ -10,7 +10,10 @@ import (
 	"crypto/ecdsa"
 	"errors"
 	"fmt"
+	"io"
 	"math/big"
+	"os"
+	"path/filepath"
 	"sort"
 	"strings"
 	"testing"
@@ -23,6 +26,7 @@ import (
 	"github.com/kardiachain/go-kardia/lib/common"
 	"github.com/kardiachain/go-kardia/lib/crypto"
 	"github.com/kardiachain/go-kardia/lib/event"
+	"github.com/kardiachain/go-kardia/lib/rlp"
 	"github.com/kardiachain/go-kardia/trie"
 	"github.com/kardiachain/go-kardia/types"
 )
@@ -314,12 +318,22 @@ type vfChain struct {
 	statedb  *state.StateDB
 	gasLimit uint64
 	feed     *event.Feed
+	head     *types.Block                 // set by the reorganisation op only
+	blocks   map[common.Hash]*types.Block // real blocks known to GetBlock (reorganisation op only)
 }
 
 func (bc *vfChain) CurrentBlock() *types.Block {
+	if bc.head != nil {
+		return bc.head
+	}
 	return types.NewBlock(&types.Header{GasLimit: bc.gasLimit}, nil, nil, nil, trie.NewStackTrie(nil))
 }
-func (bc *vfChain) GetBlock(hash common.Hash, number uint64) *types.Block { return bc.CurrentBlock() }
+func (bc *vfChain) GetBlock(hash common.Hash, number uint64) *types.Block {
+	if b, ok := bc.blocks[hash]; ok && b.Height() == number {
+		return b
+	}
+	return bc.CurrentBlock()
+}
 func (bc *vfChain) StateAt(height uint64) (*state.StateDB, error)        { return bc.statedb, nil }
 func (bc *vfChain) SubscribeChainHeadEvent(ch chan<- events.ChainHeadEvent) event.Subscription {
 	return bc.feed.Subscribe(ch)
@@ -369,6 +383,7 @@ type vfPoolCase struct {
 	nextID int
 	unsettled bool
 	lastFloor int64
+	gapExempt []bool // set by reorgRun only, see there
 	opn    int
 	key    strings.Builder
 }
@@ -503,13 +518,15 @@ func vfContentText(m map[int][]*vfTx) string {
 	return strings.Join(parts, ";")
 }
 
-func (c *vfPoolCase) snap() *vfSnap {
-	p, q := c.pool.Content()
+func (c *vfPoolCase) snap() *vfSnap { return c.snapOf(c.pool) }
+
+func (c *vfPoolCase) snapOf(pool *TxPool) *vfSnap {
+	p, q := pool.Content()
 	s := &vfSnap{pending: c.mapContent(p, "pending"), queued: c.mapContent(q, "queue")}
-	s.np, s.nq = c.pool.Stats()
+	s.np, s.nq = pool.Stats()
 	ns := make([]string, c.nAcc)
 	for a := 0; a < c.nAcc; a++ {
-		n := c.pool.Nonce(vfAddrs[a])
+		n := pool.Nonce(vfAddrs[a])
 		s.nonces = append(s.nonces, n)
 		ns[a] = fmt.Sprint(n)
 	}
@@ -574,7 +591,11 @@ func (c *vfPoolCase) invariants(before, s *vfSnap, reorged bool, localBefore []b
 		if len(l) == 0 {
 			o.Viol("pool-empty-pending-entry", ctx)
 		}
+		exempt := c.gapExempt != nil && c.gapExempt[a]
 		for i, t := range l {
+			if exempt {
+				break
+			}
 			if t.nonce != c.nonces[a]+uint64(i) {
 				o.Viol("pool-pending-not-gapfree-from-state-nonce", fmt.Sprintf("%s: account %d state nonce %d position %d holds nonce %d (tx %d)", ctx, a, c.nonces[a], i, t.nonce, t.id))
 				break
@@ -591,7 +612,7 @@ func (c *vfPoolCase) invariants(before, s *vfSnap, reorged bool, localBefore []b
 				o.Viol("pool-pending-invalid-tx", fmt.Sprintf("%s: tx %d", ctx, t.id))
 			}
 		}
-		if s.nonces[a] != c.nonces[a]+uint64(len(l)) {
+		if s.nonces[a] != c.nonces[a]+uint64(len(l)) && !exempt {
 			o.Viol("pool-nonce-not-after-pending", fmt.Sprintf("%s: account %d Nonce()=%d state %d pending %d", ctx, a, s.nonces[a], c.nonces[a], len(l)))
 		}
 	}
@@ -910,6 +931,29 @@ func (c *vfPoolCase) genTx(snap *vfSnap) *vfTx {
 		}
 		old := all[r.Intn(len(all))]
 		th := old.price * int64(100+c.cfg.PriceBump) / 100
+		if r.Chance(45) {
+			// an accepted replacement with gas <= the old gas that costs more than anything its list
+			// has held so far: the list's cost cap has to follow (a stale cap shows at a later
+			// balance-lowering reset through Filter's short cut)
+			p := th
+			if p <= old.price {
+				p = old.price + 1
+			}
+			if r.Chance(50) {
+				for _, x := range all {
+					if x.sender == old.sender && x.slots == old.slots && x.price >= p {
+						p = x.price + 1
+					}
+				}
+			}
+			p += int64(r.Pick(0, 0, 1, 5))
+			g := old.gas
+			if g > vfBaseGas && r.Chance(30) {
+				g = vfBaseGas + uint64(r.Intn(int(g-vfBaseGas)))
+			}
+			c.o.Stat("pool.gen.replacement-gas-le-old")
+			return c.mk(old.sender, old.nonce, p, g, 0, 0, 0, false)
+		}
 		p := r.Pick64(old.price-1, old.price, old.price+1, th-1, th, th+1, th+5)
 		if p < 0 {
 			p = 0
@@ -963,8 +1007,40 @@ func (c *vfPoolCase) reset() {
 	r, o := c.r, c.o
 	ctx := fmt.Sprintf("pool case %d op %d reset", c.idx, c.opn)
 	before := c.snap()
+	// boundary motif: one account that holds transactions gets a balance right at the cost of one
+	// of them (mostly the most expensive one), its nonce stays
+	bAcc, bBal := -1, int64(0)
+	if r.Chance(40) {
+		var cand []int
+		for a := 0; a < c.nAcc; a++ {
+			if len(before.pending[a])+len(before.queued[a]) > 0 {
+				cand = append(cand, a)
+			}
+		}
+		if len(cand) > 0 {
+			a := cand[r.Intn(len(cand))]
+			l := append(append([]*vfTx{}, before.pending[a]...), before.queued[a]...)
+			x := l[r.Intn(len(l))]
+			if r.Chance(70) {
+				for _, t := range l {
+					if t.cost().Cmp(x.cost()) > 0 {
+						x = t
+					}
+				}
+			}
+			bAcc, bBal = a, x.cost().Int64()+int64(r.Pick(-1, -1, 0, 1))
+			if bBal < 0 {
+				bBal = 0
+			}
+			o.Stat("pool.reset.boundary-balance." + before.where(x))
+		}
+	}
 	// new head: nonces move (mostly forward, sometimes back), balances change, the gas limit may shrink
 	for a := 0; a < c.nAcc; a++ {
+		if a == bAcc {
+			c.bals[a] = bBal
+			continue
+		}
 		switch r.Intn(10) {
 		case 0, 1, 2: // a prefix of pending was mined
 			c.nonces[a] += uint64(r.Intn(len(before.pending[a]) + 2))
@@ -993,6 +1069,17 @@ func (c *vfPoolCase) reset() {
 		c.chain.gasLimit = vfBaseGas
 	case 2, 3, 4, 5, 6, 7:
 		c.chain.gasLimit = 1000000
+	case 8:
+		// boundary motif: the gas limit right at / below the gas of a pending transaction
+		var pend []*vfTx
+		for a := 0; a < c.nAcc; a++ {
+			pend = append(pend, before.pending[a]...)
+		}
+		if len(pend) > 0 {
+			x := pend[r.Intn(len(pend))]
+			c.chain.gasLimit = x.gas - uint64(r.Pick(1, 0))
+			o.Stat("pool.reset.boundary-gaslimit")
+		}
 	}
 	c.newState()
 	if vfGuard(o, "pool-panic-in-reset", func() string { return ctx }, func() { <-c.pool.requestReset(nil, nil) }) {
@@ -1014,9 +1101,26 @@ func (c *vfPoolCase) reset() {
 			o.Viol("pool-reset-added-tx", ctx)
 		}
 	}
+	c.queuedPayable(after, ctx)
 	c.unsettled = false
 	o.Stat("pool.reset")
 	c.key.WriteString("R")
+}
+
+// queuedPayable: a head reset filters every queue as well (promoteExecutables over all queued
+// accounts; what demoteUnexecutables moves back was filtered before), so right after it no queued
+// transaction is unaffordable or above the block gas limit.
+func (c *vfPoolCase) queuedPayable(s *vfSnap, ctx string) {
+	for a := 0; a < c.nAcc; a++ {
+		for _, t := range s.queued[a] {
+			if t.cost().Cmp(big.NewInt(c.bals[a])) > 0 {
+				c.o.Viol("pool-queued-unaffordable-after-reset", fmt.Sprintf("%s: account %d balance %d tx %d cost %s", ctx, a, c.bals[a], t.id, t.cost()))
+			}
+			if t.gas > c.chain.gasLimit {
+				c.o.Viol("pool-queued-above-block-gas-limit-after-reset", fmt.Sprintf("%s: tx %d gas %d limit %d", ctx, t.id, t.gas, c.chain.gasLimit))
+			}
+		}
+	}
 }
 
 func (c *vfPoolCase) setPrice() {
@@ -1119,14 +1223,20 @@ func vfNewPoolCase(o *vfOut, r *vfRand, idx int, cfg TxPoolConfig, nAcc int, non
 	c.chain = &vfChain{gasLimit: 1000000, feed: new(event.Feed)}
 	c.newState()
 	c.pool = NewTxPool(c.cfg, configs.TestChainConfig, c.chain)
+	o.Op(vfModel, fmt.Sprintf("case pool %d", idx), "ok")
+	o.Op(vfModel, c.cfgText(), "ok")
+	return c
+}
+
+// cfgText is the op line that (re-)initialises the model: an empty pool with this configuration
+// over the current chain state.
+func (c *vfPoolCase) cfgText() string {
 	nl := 0
 	if c.cfg.NoLocals {
 		nl = 1
 	}
-	o.Op(vfModel, fmt.Sprintf("case pool %d", idx), "ok")
-	o.Op(vfModel, fmt.Sprintf("cfg pl=%d pb=%d as=%d gs=%d aq=%d gq=%d nolocals=%d %s", c.cfg.PriceLimit, c.cfg.PriceBump,
-		c.cfg.AccountSlots, c.cfg.GlobalSlots, c.cfg.AccountQueue, c.cfg.GlobalQueue, nl, c.chainText()), "ok")
-	return c
+	return fmt.Sprintf("cfg pl=%d pb=%d as=%d gs=%d aq=%d gq=%d nolocals=%d %s", c.cfg.PriceLimit, c.cfg.PriceBump,
+		c.cfg.AccountSlots, c.cfg.GlobalSlots, c.cfg.AccountQueue, c.cfg.GlobalQueue, nl, c.chainText())
 }
 
 // vfF12Case is the directed scenario of finding F12 (DESIGN.md section 5): a pool of four slots
@@ -1162,6 +1272,403 @@ func (c *vfPoolCase) settle() {
 	c.o.Stat("pool.settle")
 }
 
+// reload stops the pool and starts a new one over the same journal file (a node restart). The
+// journal is an append-only RLP stream of the transactions accepted from local accounts; loading it
+// is AddLocals(file content) on an empty pool, which is what the model is told (cfg = empty pool,
+// then one local batch in file order) and what the reference pool B does.
+func (c *vfPoolCase) reload() {
+	o := c.o
+	ctx := fmt.Sprintf("pool case %d op %d journal-reload", c.idx, c.opn)
+	old := c.snap()
+	localOld := make([]bool, c.nAcc)
+	for a := range localOld {
+		localOld[a] = c.isLocal(a)
+	}
+	if vfGuard(o, "pool-panic-in-stop", func() string { return ctx }, func() { c.pool.Stop() }) {
+		return
+	}
+	// the journal file, in file order
+	var file []*vfTx
+	inFile := map[int]bool{}
+	if f, err := os.Open(c.cfg.Journal); err != nil {
+		o.Viol("pool-journal-file-missing", ctx)
+	} else {
+		stream := rlp.NewStream(f, 0)
+		for {
+			tx := new(types.Transaction)
+			if err := stream.Decode(tx); err != nil {
+				if err != io.EOF {
+					o.Viol("pool-journal-file-corrupt", ctx)
+				}
+				break
+			}
+			t := c.byHash[tx.Hash()]
+			if t == nil {
+				o.Viol("pool-journal-unknown-tx", ctx)
+				continue
+			}
+			if !localOld[t.sender] {
+				o.Viol("pool-journal-holds-remote-tx", fmt.Sprintf("%s: tx %d of account %d", ctx, t.id, t.sender))
+			}
+			if inFile[t.id] {
+				o.Stat("pool.journal-reload.tx-journaled-twice")
+			}
+			inFile[t.id] = true
+			file = append(file, t)
+		}
+		f.Close()
+	}
+	// reference pool B: no journal, AddLocals(file content)
+	cfgB := c.cfg
+	cfgB.Journal = ""
+	var B, C *TxPool
+	var sb *vfSnap
+	var errs []error
+	if vfGuard(o, "pool-panic-in-journal-reference", func() string { return ctx }, func() {
+		B = NewTxPool(cfgB, configs.TestChainConfig, c.chain)
+		if len(file) > 0 {
+			raw := make([]*types.Transaction, len(file))
+			for i, t := range file {
+				raw[i] = t.tx
+			}
+			errs = B.AddLocals(raw)
+		}
+		sb = c.snapOf(B)
+		B.Stop()
+	}) {
+		sb = nil
+	}
+	o.Op(vfModel, c.cfgText(), "ok")
+	if sb != nil && len(file) > 0 {
+		specs := make([]string, len(file))
+		names := make([]string, len(file))
+		for i, t := range file {
+			specs[i] = t.spec()
+			names[i] = vfErrName(errs[i])
+			o.Stat("pool.journal-reload.add." + names[i])
+		}
+		o.Op(vfModel, fmt.Sprintf("add loc=1 %s => e=%s %s", strings.Join(specs, " "), strings.Join(names, ","), sb.text), "ok")
+	}
+	// the reloaded pool C
+	if vfGuard(o, "pool-panic-in-journal-load", func() string { return ctx }, func() {
+		C = NewTxPool(c.cfg, configs.TestChainConfig, c.chain)
+	}) {
+		// keep the case alive on a pool without journal
+		C = NewTxPool(cfgB, configs.TestChainConfig, c.chain)
+	}
+	c.pool = C
+	sc := c.snap()
+	if sb != nil && sc.text != sb.text {
+		o.Viol("pool-journal-reload-differs-from-addlocals", fmt.Sprintf("%s: reloaded %s addlocals %s", ctx, sc.text, sb.text))
+	}
+	for _, t := range sc.allTxs() {
+		if !inFile[t.id] {
+			o.Viol("pool-journal-reload-unknown-tx", fmt.Sprintf("%s: tx %d", ctx, t.id))
+		}
+		if !localOld[t.sender] {
+			o.Viol("pool-journal-reload-kept-remote", fmt.Sprintf("%s: tx %d of account %d", ctx, t.id, t.sender))
+		}
+		if !c.isLocal(t.sender) {
+			o.Viol("pool-journal-reload-not-local", fmt.Sprintf("%s: tx %d of account %d", ctx, t.id, t.sender))
+		}
+		if old.where(t) == "unknown" {
+			// dropped earlier (replaced, stale or unpayable at the time) and still in the journal
+			o.Stat("pool.journal-reload.resurrected")
+		}
+	}
+	survived, droppedRemote, droppedUnjournaled := 0, 0, 0
+	for _, t := range old.allTxs() {
+		switch {
+		case sc.where(t) != "unknown":
+			survived++
+		case !inFile[t.id] && !localOld[t.sender]:
+			droppedRemote++
+		case !inFile[t.id]:
+			// accepted before its account became local (or a local replacement of a pending
+			// transaction of a non-local account, which add() does not journal)
+			droppedUnjournaled++
+		case sc.at(t.sender, t.nonce) != nil:
+			// the journal still holds an earlier, better-priced transaction of that nonce which had
+			// left the pool (stale / unpayable at some head) and comes back first: the later one is
+			// refused as an under-priced replacement. The statement is silent about it.
+			o.Stat("pool.journal-reload.local-superseded-by-resurrected")
+		default:
+			o.Viol("pool-journal-reload-lost-local", fmt.Sprintf("%s: tx %d of account %d was %s; old %s reloaded %s", ctx, t.id, t.sender, old.where(t), old.text, sc.text))
+		}
+	}
+	c.invariants(nil, sc, true, nil, ctx)
+	c.lastFloor = int64(c.cfg.PriceLimit)
+	c.unsettled = false
+	o.Stat("pool.journal-reload")
+	o.StatN("pool.journal-reload.file-txs", len(file))
+	o.StatN("pool.journal-reload.survived", survived)
+	o.StatN("pool.journal-reload.dropped-remote", droppedRemote)
+	o.StatN("pool.journal-reload.dropped-unjournaled-local", droppedUnjournaled)
+	if len(file) == 0 {
+		o.Stat("pool.journal-reload.empty-file")
+	}
+	if sc.np+sc.nq > 0 {
+		o.Stat("pool.journal-reload.nonempty-after")
+	}
+	c.key.WriteString("J")
+}
+
+// reorg is the final op of a case: the head O (which mined a few transactions) is replaced by a
+// sibling N that mined only some of them; reset(O, N) has to put the others back into the pool.
+// The Lean model has no re-injection: the first step (A -> O, an ordinary head change) is sent to
+// the model, the reorganisation itself is checked by the oracle only and emits no M record.
+func (c *vfPoolCase) reorg() {
+	r := c.r
+	before := c.snap()
+	// the transactions mined in O: per account a prefix of its pending run, or fresh ones the pool
+	// has never seen, with nonces continuing from the state nonce
+	mined := make([][]*vfTx, c.nAcc)
+	total := 0
+	fresh := func(a, k int) {
+		for i := 0; i < k; i++ {
+			mined[a] = append(mined[a], c.mk(a, c.nonces[a]+uint64(i), int64(r.Pick(1, 2, 3, 5, 10)), uint64(vfBaseGas+r.Pick(0, 0, 500)), 0, 0, 0, false))
+		}
+	}
+	for a := 0; a < c.nAcc; a++ {
+		pend := before.pending[a]
+		switch {
+		case len(pend) > 0 && r.Chance(70):
+			k := 1 + r.Intn(len(pend))
+			for i := 0; i < k && pend[i].nonce == c.nonces[a]+uint64(i); i++ {
+				mined[a] = append(mined[a], pend[i])
+			}
+		case len(pend) == 0 && r.Chance(50):
+			fresh(a, 1+r.Intn(2))
+		}
+		total += len(mined[a])
+	}
+	if total == 0 {
+		a := r.Intn(c.nAcc)
+		if pend := before.pending[a]; len(pend) > 0 && pend[0].nonce == c.nonces[a] {
+			mined[a] = append(mined[a], pend[0])
+		} else {
+			fresh(a, 1)
+		}
+	}
+	// N mined a prefix of each account's transactions of O
+	keep := make([]int, c.nAcc)
+	var lost []*vfTx
+	for a := 0; a < c.nAcc; a++ {
+		if len(mined[a]) > 0 && r.Chance(35) {
+			keep[a] = r.Intn(len(mined[a]) + 1)
+		}
+		lost = append(lost, mined[a][keep[a]:]...)
+	}
+	// N's branch may leave a sender poorer / have a lower gas limit
+	balAcc, balVal, gl := -1, int64(0), uint64(0)
+	if len(lost) > 0 && r.Chance(20) {
+		x := lost[r.Intn(len(lost))]
+		balAcc, balVal = x.sender, x.cost().Int64()-int64(r.Pick(1, 0))
+		c.o.Stat("pool.reorg-reinject.boundary-balance")
+	}
+	if r.Chance(10) {
+		gl = uint64(vfBaseGas + r.Pick(0, 100))
+	}
+	c.reorgRun(before, mined, keep, func() {
+		if balAcc >= 0 {
+			c.bals[balAcc] = balVal
+		}
+		if gl != 0 {
+			c.chain.gasLimit = gl
+		}
+	})
+}
+
+// reorgRun: mined[a] = the transactions of account a in the old head O (nonces from the state
+// nonce), keep[a] = how many of them the new head N mined too; newHeadState adjusts balances / the
+// gas limit of N's branch.
+func (c *vfPoolCase) reorgRun(before *vfSnap, mined [][]*vfTx, keep []int, newHeadState func()) {
+	o := c.o
+	ctx := fmt.Sprintf("pool case %d op %d reorg", c.idx, c.opn)
+	var txsO, txsN []*types.Transaction
+	var lost []*vfTx
+	for a := 0; a < c.nAcc; a++ {
+		for i, t := range mined[a] {
+			txsO = append(txsO, t.tx)
+			if i < keep[a] {
+				txsN = append(txsN, t.tx)
+			} else {
+				lost = append(lost, t)
+			}
+		}
+	}
+	tm := time.Unix(1600000000, 0).UTC()
+	A := types.NewBlock(&types.Header{Height: 1, Time: tm, GasLimit: c.chain.gasLimit}, nil, nil, nil, trie.NewStackTrie(nil))
+	O := types.NewBlock(&types.Header{Height: 2, Time: tm.Add(5 * time.Second), GasLimit: c.chain.gasLimit,
+		LastBlockID: types.BlockID{Hash: A.Hash()}}, txsO, nil, nil, trie.NewStackTrie(nil))
+	// step 1 (model-tracked): head A -> O
+	for a := 0; a < c.nAcc; a++ {
+		c.nonces[a] += uint64(len(mined[a]))
+	}
+	c.newState()
+	c.chain.blocks = map[common.Hash]*types.Block{A.Hash(): A, O.Hash(): O}
+	c.chain.head = O
+	if vfGuard(o, "pool-panic-in-reset", func() string { return ctx }, func() { <-c.pool.requestReset(A.Header(), O.Header()) }) {
+		return
+	}
+	mid := c.snap()
+	o.Op(vfModel, fmt.Sprintf("reset %s => %s", c.chainText(), mid.text), "ok")
+	c.invariants(before, mid, true, nil, ctx+" (old head)")
+	c.queuedPayable(mid, ctx+" (old head)")
+	for _, t := range mid.allTxs() {
+		if before.where(t) == "unknown" {
+			o.Viol("pool-reset-added-tx", ctx+" (old head)")
+		}
+	}
+	c.unsettled = false
+	// step 2 (oracle only): head O -> N
+	for a := 0; a < c.nAcc; a++ {
+		c.nonces[a] = c.nonces[a] - uint64(len(mined[a])) + uint64(keep[a])
+	}
+	newHeadState()
+	c.newState()
+	N := types.NewBlock(&types.Header{Height: 2, Time: tm.Add(7 * time.Second), GasLimit: c.chain.gasLimit,
+		LastBlockID: types.BlockID{Hash: A.Hash()}}, txsN, nil, nil, trie.NewStackTrie(nil))
+	if N.Hash() == O.Hash() || A.Hash() == O.Hash() {
+		o.Viol("harness-block-hash-clash", ctx)
+	}
+	c.chain.blocks[N.Hash()] = N
+	c.chain.head = N
+	localB := make([]bool, c.nAcc)
+	for a := range localB {
+		localB[a] = c.isLocal(a)
+	}
+	slotsB := c.pool.all.Slots()
+	if vfGuard(o, "pool-panic-in-reorg-reset", func() string { return ctx }, func() { <-c.pool.requestReset(O.Header(), N.Header()) }) {
+		return
+	}
+	after := c.snap()
+	valid := func(t *vfTx) bool {
+		a := t.sender
+		return t.nonce >= c.nonces[a] && t.cost().Cmp(big.NewInt(c.bals[a])) <= 0 && t.gas <= c.chain.gasLimit &&
+			(t.price >= c.lastFloor || localB[a])
+	}
+	// FINDING (not in KNOWN_FINDINGS yet): when a re-injected transaction does not make it back
+	// (not valid under N's state, or refused by the pool-full branch of add) while transactions
+	// with higher nonces of the same sender are still pending, the pending list keeps a nonce gap:
+	// demoteUnexecutables only looks for a gap *in front* (first pending nonce != state nonce).
+	// Reported under its own signature; the generic gap / Nonce() clauses are skipped for exactly
+	// the accounts whose first hole is such a failed re-injection.
+	c.gapExempt = make([]bool, c.nAcc)
+	for a := 0; a < c.nAcc; a++ {
+		for i, t := range after.pending[a] {
+			want := c.nonces[a] + uint64(i)
+			if t.nonce == want {
+				continue
+			}
+			for _, x := range lost {
+				if x.sender == a && x.nonce == want && after.where(x) == "unknown" && i > 0 {
+					c.gapExempt[a] = true
+					why := "refused although valid under the new head (pool limits)"
+					if !valid(x) {
+						why = "not valid under the new head"
+					}
+					o.Viol("pool-reorg-reinject-gap-in-pending", fmt.Sprintf("%s: account %d state nonce %d: re-injected tx %d (nonce %d) %s, pending keeps nonce %d (tx %d) behind the hole; before %s after %s",
+						ctx, a, c.nonces[a], x.id, x.nonce, why, t.nonce, t.id, mid.text, after.text))
+				}
+			}
+			break
+		}
+	}
+	c.invariants(mid, after, true, nil, ctx)
+	c.gapExempt = nil
+	c.queuedPayable(after, ctx)
+	// what has to come back
+	lostSlots := 0
+	perAcc := make([]int, c.nAcc)
+	for _, t := range lost {
+		lostSlots += t.slots
+		perAcc[t.sender]++
+	}
+	back := 0
+	for _, t := range lost {
+		a := t.sender
+		in := after.where(t) != "unknown"
+		if in {
+			back++
+		}
+		switch {
+		case !valid(t):
+			switch {
+			case t.cost().Cmp(big.NewInt(c.bals[a])) > 0:
+				o.Stat("pool.reorg-reinject.not-valid-under-new-head.funds")
+			case t.gas > c.chain.gasLimit:
+				o.Stat("pool.reorg-reinject.not-valid-under-new-head.gaslimit")
+			default:
+				o.Stat("pool.reorg-reinject.not-valid-under-new-head.price-floor")
+			}
+			if in {
+				o.Viol("pool-reorg-reinjected-invalid-tx", fmt.Sprintf("%s: tx %d (price %d floor %d cost %s balance %d gas %d limit %d)", ctx, t.id, t.price, c.lastFloor, t.cost(), c.bals[a], t.gas, c.chain.gasLimit))
+			}
+		case in:
+			o.Stat("pool.reorg-reinject.back." + after.where(t))
+		case mid.at(a, t.nonce) != nil:
+			o.Stat("pool.reorg-reinject.same-nonce-in-pool")
+		case slotsB+lostSlots > int(c.cfg.GlobalQueue) || slotsB+lostSlots > int(c.cfg.GlobalSlots) ||
+			(!localB[a] && len(mid.pending[a])+len(mid.queued[a])+perAcc[a] > vfMin(int(c.cfg.AccountQueue), int(c.cfg.AccountSlots))):
+			// a limit may explain its absence (pool-full branch of add, queue cap, truncation)
+			o.Stat("pool.reorg-reinject.absent-near-limit(not-judged)")
+		default:
+			o.Viol("pool-reorg-reinject-lost", fmt.Sprintf("%s: tx %d of account %d (nonce %d, state nonce %d) is not back; before %s after %s", ctx, t.id, a, t.nonce, c.nonces[a], mid.text, after.text))
+		}
+	}
+	for _, t := range after.allTxs() {
+		if mid.where(t) != "unknown" {
+			continue
+		}
+		isLost := false
+		for _, x := range lost {
+			if x == t {
+				isLost = true
+			}
+		}
+		if !isLost {
+			o.Viol("pool-reorg-added-foreign-tx", fmt.Sprintf("%s: tx %d", ctx, t.id))
+		}
+	}
+	// a reorganisation never evicts a local transaction that is still valid under the new head
+	for _, g := range vfVanished(mid, after) {
+		if localB[g.sender] && valid(g) {
+			o.Viol("pool-local-tx-evicted", fmt.Sprintf("%s: tx %d of local account %d disappeared", ctx, g.id, g.sender))
+		}
+	}
+	o.Stat("pool.reorg-reinject")
+	o.StatN("pool.reorg-reinject.mined-in-old-head", len(txsO))
+	o.StatN("pool.reorg-reinject.also-in-new-head", len(txsN))
+	o.StatN("pool.reorg-reinject.to-reinject", len(lost))
+	o.StatN("pool.reorg-reinject.came-back", back)
+	if back > 0 {
+		o.Stat("pool.reorg-reinject.runs-with-some-back")
+	}
+	c.key.WriteString("O")
+}
+
+// vfReorgGapCase is the directed scenario of the re-injection finding: one sender with pending
+// nonces 0, 1, 2; the old head mined 0 and 1; the new head mined neither and leaves the sender
+// a balance that pays for nonce 0 and 2 but not for nonce 1. No pool limit is involved.
+func vfReorgGapCase(o *vfOut, idx int) {
+	cfg := DefaultTxPoolConfig
+	cfg.Journal = ""
+	cfg.AccountSlots, cfg.GlobalSlots, cfg.AccountQueue, cfg.GlobalQueue = 4, 8, 4, 8
+	c := vfNewPoolCase(o, vfNewRand(1), idx, cfg, 3, []uint64{0, 0, 0})
+	defer func() { c.pool.Stop() }()
+	var ts []*vfTx
+	for n, p := range []int64{1, 5, 1} {
+		t := c.mk(0, uint64(n), p, vfBaseGas, 0, 0, 0, false)
+		ts = append(ts, t)
+		c.submit([]*vfTx{t}, false)
+		c.opn++
+	}
+	c.reorgRun(c.snap(), [][]*vfTx{{ts[0], ts[1]}, nil, nil}, []int{0, 0, 0}, func() { c.bals[0] = ts[1].cost().Int64() - 1 })
+	o.Stat("pool.directed-reorg-gap-scenario")
+	o.Case("reorg-gap", true)
+}
+
 func vfPoolCaseRun(o *vfOut, r *vfRand, idx int) {
 	cfg := DefaultTxPoolConfig
 	cfg.Journal = ""
@@ -1178,10 +1685,27 @@ func vfPoolCaseRun(o *vfOut, r *vfRand, idx int) {
 	for a := range nonces {
 		nonces[a] = uint64(r.Pick(0, 0, 1, 3))
 	}
-	c := vfNewPoolCase(o, r, idx, cfg, nAcc, nonces)
-	defer c.pool.Stop()
 	nops := 25 + r.Intn(45)
+	// a quarter of the cases that track locals run over a journal file and restart the pool once,
+	// somewhere in the second half (reloadAt == nops: after the last op); a fifth of the cases end
+	// with a chain reorganisation
+	reloadAt := -1
+	if r.Chance(25) && !cfg.NoLocals {
+		reloadAt = nops/2 + r.Intn(nops-nops/2+1)
+		dir, err := os.MkdirTemp(os.TempDir(), "vfc17-journal-")
+		if err != nil {
+			panic(err)
+		}
+		defer os.RemoveAll(dir)
+		cfg.Journal = filepath.Join(dir, "transactions.rlp")
+	}
+	withReorg := r.Chance(20)
+	c := vfNewPoolCase(o, r, idx, cfg, nAcc, nonces)
+	defer func() { c.pool.Stop() }()
 	for c.opn = 0; c.opn < nops; c.opn++ {
+		if c.opn == reloadAt {
+			c.reload()
+		}
 		snap := c.snap()
 		switch k := r.Intn(100); {
 		case k < 52:
@@ -1226,7 +1750,17 @@ func vfPoolCaseRun(o *vfOut, r *vfRand, idx int) {
 		}
 	}
 	fin := c.snap()
-	o.Case(fmt.Sprintf("pool:%d:%d:%d:%d:%s", c.cfg.AccountSlots, c.cfg.GlobalSlots, c.cfg.AccountQueue, c.cfg.GlobalQueue, c.key.String()), fin.np+fin.nq > 0)
+	held := fin.np+fin.nq > 0 // (a restart drops every remote transaction, so look before it too)
+	if reloadAt == nops {
+		c.reload()
+	}
+	if withReorg {
+		c.reorg() // the last op: no M record after it
+	}
+	if reloadAt == nops || withReorg {
+		fin = c.snap()
+	}
+	o.Case(fmt.Sprintf("pool:%d:%d:%d:%d:%s", c.cfg.AccountSlots, c.cfg.GlobalSlots, c.cfg.AccountQueue, c.cfg.GlobalQueue, c.key.String()), held || fin.np+fin.nq > 0)
 	if idx%50 == 1 {
 		o.Sample(fmt.Sprintf("pool case %d: %d ops, final %s", idx, nops, fin.text))
 	}
@@ -1243,6 +1777,8 @@ func TestVerifC17(t *testing.T) {
 		r := vfFork(vfSeed(), uint64(i))
 		if i == 1 {
 			vfF12Case(o, i)
+		} else if i == 2 {
+			vfReorgGapCase(o, i)
 		} else if i%5 == 0 {
 			vfListCase(o, r, i)
 		} else {
